@@ -367,6 +367,61 @@ func TestVerifC03(t *testing.T) {
 		c03Judge(rep, &cs, "cloud-role", c.NotBefore.Unix(), c.NotAfter.Unix(), false, tBefore, tAfter, nil, time.Time{}, 24*time.Hour)
 		rep.Sample("issued:cloud-role", 1, cs)
 	}
+	// ---- the same bounds on a host whose local time zone is not UTC (the sandbox's is): validity is a matter of
+	// instants, whatever the zone the daemon's clock is displayed in
+	savedLocal := time.Local
+	for _, off := range []int{-8, 1, 9, 14} {
+		time.Local = time.FixedZone(fmt.Sprintf("UTC%+d", off), off*3600)
+		zone := fmt.Sprintf("local-zone-UTC%+d", off)
+		for i, k := range keys[:2] {
+			q := verifCloudRoleReq("123456789012", fmt.Sprintf("zrole%d", i), fmt.Sprintf("arn:aws:iam::123456789012:role/zrole%d", i), k.PKIX)
+			tBefore := time.Now()
+			resp := env.Do(q.Build())
+			tAfter := time.Now()
+			cs := c03Case{Path: "cloud-role", CertType: "x509-cloud", Cred: "sts-presigned," + zone, Status: resp.Code}
+			rep.Eval(fmt.Sprintf("cloud-role|%s|%d", zone, resp.Code))
+			if c, err := verifParseX509PEM(resp.Body); resp.Code == 200 && err == nil {
+				rep.Count("decoded_other_zone", 1)
+				c03Judge(rep, &cs, "cloud-role", c.NotBefore.Unix(), c.NotAfter.Unix(), false, tBefore, tAfter, nil, time.Time{}, 24*time.Hour)
+			}
+			for _, ct := range types {
+				kd := k.PKIX
+				if ct == "ssh" {
+					kd = k.SSH
+				}
+				d := 2 * time.Hour
+				q := verifCertReq("alice", ct, kd, "2h", nil)
+				iat := time.Now().Add(-23 * time.Hour)
+				q.Cookies = map[string]string{"auth_cookie": verifMint(verifSessionClaims("alice", verifBit["password"]|verifBit["U2F"], iat, 30*time.Hour), ca)}
+				tBefore := time.Now()
+				resp := env.Do(q.Build())
+				tAfter := time.Now()
+				cs := c03Case{Path: "certgen", CertType: ct, Cred: "cookie-age-23h," + zone, Status: resp.Code, Duration: "2h"}
+				rep.Eval(fmt.Sprintf("certgen|%s|%s|%d", ct, zone, resp.Code))
+				if resp.Code != 200 {
+					continue
+				}
+				var nb, na int64
+				if ct == "ssh" {
+					sc, err := verifParseSSHCert(resp.Body)
+					if err != nil {
+						continue
+					}
+					nb, na = int64(sc.ValidAfter), int64(sc.ValidBefore)
+				} else {
+					xc, err := verifParseX509PEM(resp.Body)
+					if err != nil {
+						continue
+					}
+					nb, na = xc.NotBefore.Unix(), xc.NotAfter.Unix()
+				}
+				rep.Count("decoded_other_zone", 1)
+				c03Judge(rep, &cs, "certgen-"+ct, nb, na, false, tBefore, tAfter, &d, iat, 24*time.Hour)
+			}
+		}
+	}
+	time.Local = savedLocal
+	rep.Floor("decoded_other_zone", 16)
 	rep.Floor("decoded_ssh", 50)
 	rep.Floor("decoded_x509", 50)
 	rep.Floor("decoded_role", 1)
